@@ -224,7 +224,10 @@ Section SimComp.
   Variable ev : handlers -> option rule -> bool -> expr -> scope -> rsig -> rmu -> rres.
   Hypothesis Hwrap : wrap_spec c wrap.
   Hypothesis Hsim : sim_spec c wrap ev.
-  Hypothesis Hhs : has_state (cT c) = true.
+  Hypothesis Hst : state_ok c.
+  (* in a template without a store the specification never changes the store either *)
+  Hypothesis Hev_st : has_state (cT c) = false -> forall H R inv e sc g m v g' sc' m',
+    ev H R inv e sc g m = ROk v g' sc' m' -> g_st g' = g_st g.
   Hypothesis Hmemo : o_memoize (cO c) = false.
   Hypothesis HG : G_wf c.
   Hypothesis Hstale : stale_ok c.
@@ -333,14 +336,15 @@ Section SimComp.
   Qed.
 
   (* ---------- rollback used by & ! and sequences ---------- *)
-  Lemma Sim_rollback p s2 sc g2 m2 H R inv g :
+  Lemma Sim_rollback p x s2 sc g2 m2 H R inv g :
     Sim c s2 sc g2 m2 H R inv -> reach d p -> offset (sp_pos p) = g_off g ->
-    Sim c (restore p (restoreState c (g_st g) s2)) sc g m2 H R inv.
+    (has_state (cT c) = true -> x = g_st g) -> (has_state (cT c) = false -> g_st g2 = g_st g) ->
+    Sim c (restore p (restoreState c x s2)) sc g m2 H R inv.
   Proof.
-    intros S Hr Ho.
-    assert (S' : Sim c (restoreState c (g_st g) s2) sc (mkSig (g_off g2) (g_st g)) m2 H R inv).
-    { destruct S as [S1 S2 S3 S4 S5 S6 S7 S8 S9 S10 S11 S12]. unfold restoreState. rewrite Hhs.
-      constructor; cbn; auto. }
+    intros S Hr Ho Hx Hg.
+    assert (S' : Sim c (restoreState c x s2) sc (mkSig (g_off g2) (g_st g)) m2 H R inv).
+    { destruct S as [S1 S2 S3 S4 S5 S6 S7 S8 S9 S10 S11 S12]. unfold restoreState.
+      destruct (has_state (cT c)) eqn:Hh; constructor; cbn; auto. rewrite S3. apply Hg. reflexivity. }
     exact (Sim_restore c p _ sc _ m2 H R inv g S' Hr Ho eq_refl).
   Qed.
 
@@ -357,21 +361,33 @@ Section SimComp.
   Lemma I_pool x s : I c s -> I c (set_pool x s).
   Proof. intros [A B C0]. constructor; auto. Qed.
 
+  (* cloneState: the saved store is the current one; the state is otherwise unchanged *)
+  Lemma clone_sim s sc g m H R inv saved s1 :
+    cloneState c s = (saved, s1) -> I c s -> Sim c s sc g m H R inv ->
+    Sim c s1 sc g m H R inv /\ I c s1 /\ pt s1 = pt s /\ (has_state (cT c) = true -> saved = g_st g).
+  Proof.
+    unfold cloneState. intros E HI S. destruct (has_state (cT c)); inversion E; subst.
+    - split; [apply Sim_pool; exact S|]. split; [apply I_pool; exact HI|]. split; [reflexivity|]. intros _. apply S.
+    - split; [exact S|]. split; [exact HI|]. split; [reflexivity|]. discriminate.
+  Qed.
+
   (* ---------- &e ---------- *)
   Lemma sim_and n e s sc g m H R inv :
     wf_e c e -> H_wf c H -> I c s -> Sim c s sc g m H R inv ->
     sim_res c sc g H R inv (parseAndExpr c wrap e s) (reval_body c ev 0 H R inv (EAnd n e) sc g m).
   Proof.
-    intros He HH HI S. unfold parseAndExpr, bind, modify, ret, cloneState. rewrite Hhs. cbn [reval_body].
-    set (s1 := set_pool (PoolGet :: pool s) s).
-    assert (S1 : Sim c s1 sc g m H R inv) by (apply Sim_pool; exact S).
-    assert (HI1 : I c s1) by (apply I_pool; exact HI).
-    change (pt s) with (pt s1). rewrite (S_st _ _ _ _ _ _ _ _ S).
-    scoped e s1 S1 HI1 He HH.
-    - destruct Hsc as (E & S2 & HI2). split; [reflexivity|].
-      eapply Sim_rollback; [exact S2 | apply S1 | apply S1].
+    intros He HH HI S. unfold parseAndExpr, bind, modify, ret. cbn [reval_body].
+    destruct (cloneState c s) as [saved s1] eqn:Hc.
+    destruct (clone_sim _ _ _ _ _ _ _ _ _ Hc HI S) as (S1 & HI1 & Hpt & Hsv).
+    rewrite <- Hpt.
+    pose proof (Hev_st) as Hevs.
+    destruct (ev H R inv e [] g m) as [m'|v' g' sc' m'|pv' m' pos R'|] eqn:Eev.
+    all: pose proof (sim_scoped e s1 _ _ _ _ _ _ He HH HI1 S1) as Hsc; unfold scoped_res in Hsc; rewrite Eev in Hsc.
+    all: destruct (wrap e (pushV s1)) as [[v [|]] s2|pv s2|]; cbn in *; try contradiction; try exact Logic.I; try exact Hsc.
     - destruct Hsc as (E & S2 & HI2). split; [reflexivity|]. exists sc.
-      eapply Sim_rollback; [exact S2 | apply S1 | apply S1].
+      eapply Sim_rollback; [exact S2 | apply S1 | apply S1 | exact Hsv | reflexivity].
+    - destruct Hsc as (E & S2 & HI2). split; [reflexivity|].
+      eapply Sim_rollback; [exact S2 | apply S1 | apply S1 | exact Hsv | intros Hh; eapply Hevs; eauto].
   Qed.
 
   (* ---------- !e ---------- *)
@@ -388,11 +404,10 @@ Section SimComp.
     wf_e c e -> H_wf c H -> I c s -> Sim c s sc g m H R inv ->
     sim_res c sc g H R inv (parseNotExpr c wrap e s) (reval_body c ev 0 H R inv (ENot n e) sc g m).
   Proof.
-    intros He HH HI S. unfold parseNotExpr, bind, modify, ret, cloneState. rewrite Hhs. cbn [reval_body].
-    set (s1 := set_pool (PoolGet :: pool s) s).
-    assert (S1 : Sim c s1 sc g m H R inv) by (apply Sim_pool; exact S).
-    assert (HI1 : I c s1) by (apply I_pool; exact HI).
-    change (pt s) with (pt s1). rewrite (S_st _ _ _ _ _ _ _ _ S).
+    intros He HH HI S. unfold parseNotExpr, bind, modify, ret. cbn [reval_body].
+    destruct (cloneState c s) as [saved s1] eqn:Hc.
+    destruct (clone_sim _ _ _ _ _ _ _ _ _ Hc HI S) as (S1 & HI1 & Hpt & Hsv).
+    rewrite <- Hpt.
     (* the flip commutes with pushV *)
     change (set_maxFailInvert (negb (maxFailInvert (pushV s1))) (pushV s1))
       with (pushV (set_maxFailInvert (negb (maxFailInvert s1)) s1)).
@@ -400,24 +415,28 @@ Section SimComp.
     assert (S1' : Sim c s1' sc g m H R (negb inv)) by (apply Sim_flip; exact S1).
     assert (HI1' : I c s1') by (apply I_flip; exact HI1).
     change (pt s1) with (pt s1').
-    scoped e s1' S1' HI1' He HH.
-    - destruct Hsc as (E & S2 & HI2). split; [reflexivity|]. exists sc.
-      pose proof (Sim_flip _ _ _ _ _ _ _ S2) as S3. rewrite Bool.negb_involutive in S3.
-      change (popV (set_maxFailInvert (negb (maxFailInvert s2)) s2))
-        with (set_maxFailInvert (negb (maxFailInvert (popV s2))) (popV s2)).
-      eapply Sim_rollback; [exact S3 | apply S1' | apply S1'].
+    pose proof (Hev_st) as Hevs.
+    destruct (ev H R (negb inv) e [] g m) as [m'|v' g' sc' m'|pv' m' pos R'|] eqn:Eev.
+    all: pose proof (sim_scoped e s1' _ _ _ _ _ _ He HH HI1' S1') as Hsc; unfold scoped_res in Hsc; rewrite Eev in Hsc.
+    all: destruct (wrap e (pushV s1')) as [[v [|]] s2|pv s2|]; cbn in *; try contradiction; try exact Logic.I; try exact Hsc.
     - destruct Hsc as (E & S2 & HI2). split; [reflexivity|].
       pose proof (Sim_flip _ _ _ _ _ _ _ S2) as S3. rewrite Bool.negb_involutive in S3.
       change (popV (set_maxFailInvert (negb (maxFailInvert s2)) s2))
         with (set_maxFailInvert (negb (maxFailInvert (popV s2))) (popV s2)).
-      eapply Sim_rollback; [exact S3 | apply S1' | apply S1'].
+      eapply Sim_rollback; [exact S3 | apply S1' | apply S1' | exact Hsv | reflexivity].
+    - destruct Hsc as (E & S2 & HI2). split; [reflexivity|]. exists sc.
+      pose proof (Sim_flip _ _ _ _ _ _ _ S2) as S3. rewrite Bool.negb_involutive in S3.
+      change (popV (set_maxFailInvert (negb (maxFailInvert s2)) s2))
+        with (set_maxFailInvert (negb (maxFailInvert (popV s2))) (popV s2)).
+      eapply Sim_rollback; [exact S3 | apply S1' | apply S1' | exact Hsv | intros Hh; eapply Hevs; eauto].
   Qed.
 
-  Lemma Sim_restoreState_same s2 sc g m H R inv :
-    Sim c s2 sc g m H R inv -> Sim c (restoreState c (g_st g) s2) sc g m H R inv.
+  Lemma Sim_restoreState_same x s2 sc g m H R inv :
+    Sim c s2 sc g m H R inv -> (has_state (cT c) = true -> x = g_st g) ->
+    Sim c (restoreState c x s2) sc g m H R inv.
   Proof.
-    intros [S1 S2 S3 S4 S5 S6 S7 S8 S9 S10 S11 S12]. unfold restoreState. rewrite Hhs.
-    constructor; cbn; auto.
+    intros [S1 S2 S3 S4 S5 S6 S7 S8 S9 S10 S11 S12] Hx. unfold restoreState.
+    destruct (has_state (cT c)); constructor; cbn; auto.
   Qed.
 
   Lemma I_restoreState x s : I c s -> I c (restoreState c x s).
@@ -431,46 +450,45 @@ Section SimComp.
     induction alts as [|a alts IH]; intros Hwf s sc g m H R inv HH HI S; cbn [choice_loop ralt].
     - cbn. split; [reflexivity|]. exists sc. exact S.
     - destruct Hwf as [Ha Hwf].
-      unfold bind, modify, ret, cloneState. rewrite Hhs.
-      set (s1 := set_pool (PoolGet :: pool s) s).
-      assert (S1 : Sim c s1 sc g m H R inv) by (apply Sim_pool; exact S).
-      assert (HI1 : I c s1) by (apply I_pool; exact HI).
-      rewrite (S_st _ _ _ _ _ _ _ _ S).
+      unfold bind, modify, ret.
+      destruct (cloneState c s) as [saved s1] eqn:Hc.
+      destruct (clone_sim _ _ _ _ _ _ _ _ _ Hc HI S) as (S1 & HI1 & Hpt & Hsv).
       scoped a s1 S1 HI1 Ha HH.
       + destruct Hsc as (E & S2 & _). split; [exact E | exact S2].
       + destruct Hsc as (E & S2 & HI2).
-        apply IH; [exact Hwf | exact HH | apply I_restoreState; exact HI2 | apply Sim_restoreState_same; exact S2].
+        apply IH; [exact Hwf | exact HH | apply I_restoreState; exact HI2 | apply Sim_restoreState_same; [exact S2 | exact Hsv]].
   Qed.
 
   (* ---------- sequence ---------- *)
-  Lemma sim_seq_loop s0 g0 : reach d (pt s0) -> offset (sp_pos (pt s0)) = g_off g0 ->
+  Lemma sim_seq_loop s0 g0 saved : reach d (pt s0) -> offset (sp_pos (pt s0)) = g_off g0 ->
+    (has_state (cT c) = true -> saved = g_st g0) ->
     forall es, wf_list c es -> forall acc s sc g m H R inv,
-      H_wf c H -> I c s -> Sim c s sc g m H R inv ->
-      sim_res c sc g0 H R inv (seq_loop c wrap (pt s0) (g_st g0) es acc s) (rseq ev H R inv es acc sc g m).
+      H_wf c H -> I c s -> Sim c s sc g m H R inv -> (has_state (cT c) = false -> g_st g = g_st g0) ->
+      sim_res c sc g0 H R inv (seq_loop c wrap (pt s0) saved es acc s) (rseq ev H R inv es acc sc g m).
   Proof.
-    intros Hr Ho. induction es as [|e es IH]; intros Hwf acc s sc g m H R inv HH HI S; cbn [seq_loop rseq].
+    intros Hr Ho Hsv. induction es as [|e es IH]; intros Hwf acc s sc g m H R inv HH HI S Hg; cbn [seq_loop rseq].
     - cbn. split; [reflexivity | exact S].
     - destruct Hwf as [He Hwf]. unfold bind, modify, ret.
       pose proof (Hsim e s sc g m H R inv He HH HI S) as Hs.
       pose proof (Hwrap e s HI) as Hw.
       unfold sim_res in Hs.
-      destruct (wrap e s) as [[v [|]] s2|pv s2|]; destruct (ev H R inv e sc g m) as [m'|v' g' sc' m'|pv' m' pos R'|];
+      destruct (wrap e s) as [[v [|]] s2|pv s2|]; destruct (ev H R inv e sc g m) as [m'|v' g' sc' m'|pv' m' pos R'|] eqn:Eev;
         cbn in *; try contradiction; try exact Logic.I; try exact Hs.
-      + destruct Hs as [E S2]. subst v'. apply IH; [exact Hwf | exact HH | apply Hw | exact S2].
+      + destruct Hs as [E S2]. subst v'. apply IH; [exact Hwf | exact HH | apply Hw | exact S2 |].
+        intros Hh. rewrite (Hev_st Hh _ _ _ _ _ _ _ _ _ _ _ Eev). apply Hg. exact Hh.
       + destruct Hs as [E [sc'' S2]]. split; [reflexivity|]. exists sc''.
-        eapply Sim_rollback; [exact S2 | exact Hr | exact Ho].
+        eapply Sim_rollback; [exact S2 | exact Hr | exact Ho | exact Hsv | exact Hg].
   Qed.
 
   Lemma sim_seq n es s sc g m H R inv :
     wf_list c es -> H_wf c H -> I c s -> Sim c s sc g m H R inv ->
     sim_res c sc g H R inv (parseSeqExpr c wrap es s) (reval_body c ev 0 H R inv (ESeq n es) sc g m).
   Proof.
-    intros Hwf HH HI S. unfold parseSeqExpr, bind, cloneState. rewrite Hhs. cbn [reval_body].
-    set (s1 := set_pool (PoolGet :: pool s) s).
-    assert (S1 : Sim c s1 sc g m H R inv) by (apply Sim_pool; exact S).
-    assert (HI1 : I c s1) by (apply I_pool; exact HI).
-    rewrite (S_st _ _ _ _ _ _ _ _ S).
-    apply (sim_seq_loop s g); [apply S | apply S | exact Hwf | exact HH | exact HI1 | exact S1].
+    intros Hwf HH HI S. unfold parseSeqExpr, bind. cbn [reval_body].
+    destruct (cloneState c s) as [saved s1] eqn:Hc.
+    destruct (clone_sim _ _ _ _ _ _ _ _ _ Hc HI S) as (S1 & HI1 & Hpt & Hsv).
+    rewrite <- Hpt.
+    apply (sim_seq_loop s1 g saved); [apply S1 | apply S1 | exact Hsv | exact Hwf | exact HH | exact HI1 | exact S1 | reflexivity].
   Qed.
 
   (* ---------- repetition ---------- *)
@@ -598,27 +616,30 @@ Section SimComp.
     destruct (wrap e s) as [[v [|]] s2|pv s2|]; destruct (ev H R inv e sc g m) as [m'|v' g' sc' m'|pv' m' pos R'|];
       cbn in *; try contradiction; try exact Logic.I; try exact Hs.
     destruct Hs as [_ S2].
-    unfold cloneState, restoreState, run_code, run_block. rewrite Hhs. cbn.
     pose proof S2 as [T1 T2 T3 T4 T5 T6 T7 T8 T9 T10 T11 T12].
-    assert (Hctx : block_ctx c id (set_pool (PoolGet :: pool s2)
-                      (set_cur_text (sliceFrom (pt s) s2) (set_cur_pos (sp_pos (pt s)) s2)))
-                   = block_ctx_ref c id (slice c (g_off g) (g_off g')) (pos_of d (g_off g)) sc' g' m').
-    { unfold block_ctx, block_ctx_ref. cbn.
-      change (top_scope (set_pool (PoolGet :: pool s2) (set_cur_text (sliceFrom (pt s) s2) (set_cur_pos (sp_pos (pt s)) s2))))
+    set (s3 := set_cur_text (sliceFrom (pt s) s2) (set_cur_pos (sp_pos (pt s)) s2)).
+    assert (Hctx : forall x, block_ctx c id (set_pool x s3)
+                   = block_ctx_ref c id (slice c (g_off g) (g_off g')) (pos_of (cData c) (g_off g)) sc' g' m').
+    { intros x. unfold block_ctx, block_ctx_ref, s3. cbn.
+      change (top_scope (set_pool x (set_cur_text (sliceFrom (pt s) s2) (set_cur_pos (sp_pos (pt s)) s2))))
         with (top_scope s2). rewrite (top_scope_Sim _ _ _ _ _ _ _ S2).
-      rewrite T3, T4, (Sim_pos _ _ _ _ _ _ _ _ S).
+      rewrite T3, T4, (Sim_pos _ _ _ _ _ _ _ _ S). fold d.
       erewrite sliceFrom_slice; [| apply (reach_ok _ _ (S_reach _ _ _ _ _ _ _ _ S)) | apply S].
       rewrite T2. reflexivity. }
-    rewrite Hctx.
-    destruct (ce_act (cE c) id _) as [r [msg|] st' gs'|pv st' gs']; cbn.
-    - split; [reflexivity|]. constructor; cbn; auto.
-      + rewrite T5. f_equal. unfold ref_perr. rewrite err_prefix_ref. cbn. rewrite T11, (Sim_pos _ _ _ _ _ _ _ _ S). reflexivity.
-      + constructor; [|exact T6]. repeat split; cbn; reflexivity.
-    - split; [reflexivity|]. constructor; cbn; auto.
-      constructor; [|exact T6]. repeat split; cbn; reflexivity.
-    - split; [reflexivity|]. constructor; cbn; auto.
-      + unfold cur_off in T2. rewrite <- T2. apply reach_pos_of. exact T1.
-      + constructor; [|exact T6]. repeat split; cbn; reflexivity.
+    assert (Hctx0 : block_ctx c id s3
+                   = block_ctx_ref c id (slice c (g_off g) (g_off g')) (pos_of (cData c) (g_off g)) sc' g' m').
+    { rewrite <- (Hctx (pool s3)). reflexivity. }
+    set (xr := block_ctx_ref c id (slice c (g_off g) (g_off g')) (pos_of (cData c) (g_off g)) sc' g' m') in *.
+    assert (Hfree : has_state (cT c) = false -> out_st_same (ce_act (cE c) id xr) xr).
+    { intros Hh. destruct Hst as [Hs|[_ (Ha & _)]]; [congruence | apply Ha]. }
+    unfold cloneState, restoreState, run_code, run_block.
+    destruct (has_state (cT c)) eqn:Hh; cbn; rewrite ?Hctx, ?Hctx0; fold xr;
+      destruct (ce_act (cE c) id xr) as [r [msg|] st' gs'|pv st' gs']; cbn;
+      (split; [reflexivity|]); constructor; cbn; auto;
+      try (rewrite T5; f_equal; unfold ref_perr; rewrite err_prefix_ref; cbn; rewrite T11, (Sim_pos _ _ _ _ _ _ _ _ S); reflexivity);
+      try (constructor; [|exact T6]; repeat split; cbn; reflexivity);
+      try (unfold cur_off in T2; rewrite <- T2; apply reach_pos_of; exact T1);
+      try (specialize (Hfree eq_refl); cbn in Hfree; rewrite Hfree; reflexivity).
   Qed.
 
   Definition fresh_state (s : pstate) : pstate :=
@@ -657,31 +678,30 @@ Section SimComp.
        end).
   Proof.
     intros Hk HI S. unfold parseCodePred, fresh_ctx, bind, modify, ret, cloneState, restoreState, run_code, run_block.
-    rewrite Hhs. cbn. fold (fresh_state s).
-    destruct (pred_ctx_rel id (PoolGet :: pool (fresh_state s)) s sc g m H R inv S) as [(Ha & Hs' & Hg) Heq].
-    set (xi := block_ctx c id (set_pool (PoolGet :: pool (fresh_state s)) (fresh_state s))) in *.
-    set (xr := block_ctx_ref c id [] (pos_of d (g_off g)) sc g m) in *.
-    assert (Hres : ce_pred (cE c) id xi = ce_pred (cE c) id xr).
-    { destruct Hstale as [Hq|[Hfree _]]; [rewrite (Heq Hq); reflexivity|]. apply Hfree. cbn. auto. }
-    assert (Hev : ev_eqv (mkEvent k id xi) (mkEvent k id xr)).
-    { repeat split; cbn; auto. destruct Hk; subst k; cbn; auto. }
-    rewrite Hres.
-    pose proof (Sim_fresh _ _ _ _ _ _ _ S) as [S1 S2 S3 S4 S5 S6 S7 S8 S9 S10 S11 S12].
-    assert (Hpos : sp_pos (pt (fresh_state s)) = pos_of d (g_off g)).
-    { unfold cur_off in S2. rewrite <- S2. apply reach_pos_of. exact S1. }
-    destruct (ce_pred (cE c) id xr) as [r [msg|] st' gs'|pv st' gs']; cbn.
-    - destruct neg, r; cbn; (split; [reflexivity|]); try (exists sc);
+    assert (Hfree : has_state (cT c) = false -> forall x, out_st_same (ce_pred (cE c) id x) x).
+    { intros Hh. destruct Hst as [Hs|[_ (_ & Hp & _)]]; [congruence | apply Hp]. }
+    destruct (has_state (cT c)) eqn:Hh; cbn; fold (fresh_state s);
+      [ set (px := PoolGet :: pool (fresh_state s))
+      | change (block_ctx c id (fresh_state s)) with (block_ctx c id (set_pool [] (fresh_state s))); set (px := @nil poolop) ].
+    all: destruct (pred_ctx_rel id px s sc g m H R inv S) as [(Ha & Hs' & Hg) Heq].
+    all: set (xi := block_ctx c id (set_pool px (fresh_state s))) in *.
+    all: set (xr := block_ctx_ref c id [] (pos_of d (g_off g)) sc g m) in *.
+    all: assert (Hres : ce_pred (cE c) id xi = ce_pred (cE c) id xr)
+           by (destruct Hstale as [Hq|[Hfr _]]; [rewrite (Heq Hq); reflexivity | apply Hfr; cbn; auto]).
+    all: assert (Hev : ev_eqv (mkEvent k id xi) (mkEvent k id xr))
+           by (repeat split; cbn; auto; destruct Hk; subst k; cbn; auto).
+    all: rewrite Hres.
+    all: pose proof (Sim_fresh _ _ _ _ _ _ _ S) as [S1 S2 S3 S4 S5 S6 S7 S8 S9 S10 S11 S12].
+    all: assert (Hpos : sp_pos (pt (fresh_state s)) = pos_of d (g_off g))
+           by (unfold cur_off in S2; rewrite <- S2; apply reach_pos_of; exact S1).
+    all: pose proof (fun Hf => Hfree Hf xr) as Hfr'.
+    all: destruct (ce_pred (cE c) id xr) as [r [msg|] st' gs'|pv st' gs']; cbn.
+    all: try (destruct neg, r; cbn).
+    all: (split; [reflexivity|]); try (exists sc);
         (constructor; cbn; auto;
          try (unfold addErr, addErrAt; cbn; rewrite S5; f_equal; unfold ref_perr; rewrite err_prefix_ref; cbn; rewrite S11, Hpos; reflexivity);
-         try (constructor; [exact Hev | exact S6])).
-    - destruct neg, r; cbn; (split; [reflexivity|]); try (exists sc);
-        (constructor; cbn; auto;
-         try (unfold addErr, addErrAt; cbn; rewrite S5; f_equal; unfold ref_perr; rewrite err_prefix_ref; cbn; rewrite S11, Hpos; reflexivity);
-         try (constructor; [exact Hev | exact S6])).
-    - (split; [reflexivity|]); try (exists sc);
-        (constructor; cbn; auto;
-         try (unfold addErr, addErrAt; cbn; rewrite S5; f_equal; unfold ref_perr; rewrite err_prefix_ref; cbn; rewrite S11, Hpos; reflexivity);
-         try (constructor; [exact Hev | exact S6])).
+         try (constructor; [exact Hev | exact S6]);
+         try (specialize (Hfr' eq_refl); cbn in Hfr'; rewrite Hfr'; reflexivity)).
   Qed.
 
   Lemma sim_stc id s sc g m H R inv :
